@@ -73,6 +73,7 @@ EnvHonest == ev.act \in {"ack", "timeout"} =>
 NoAnomaly == ev.anom = <<>> /\ EnvHonest
 TraceAlias == [l |-> l, act |-> ev.act]
 
+T_C18_Init == [][C18_Init]_tv
 T_UpgradeKeepsState == [][UpgradeKeepsState]_tv
 T_C11_HeldWriters == [][C11_HeldWriters]_tv
 T_C11_BadPacketReleasesNothing == [][C11_BadPacketReleasesNothing]_tv
